@@ -165,12 +165,36 @@ def coq_predictions(queries, cx):
     assert len(pairs) == len(queries), (len(pairs), len(queries))
     return [(a == 'true', b == 'true') for a, b in pairs]
 
+def yields_mut(q):
+    k = q[0]
+    if k[0] == 'm' and k[1:].isdigit(): return True
+    if k[0] == 'r' and k[1:].isdigit(): return False
+    if k in ('!', 'w', 'h', 'e'): return False
+    return any(yields_mut(x) for x in q[1:])
+
+def mentions_mut_imm(q):
+    k = q[0]
+    if k == 'm2': return True
+    if k[0] in 'rme' and (k == 'e' or k[1:].isdigit()): return False
+    return any(mentions_mut_imm(x) for x in q[1:])
+
+def spec_prediction(q):
+    valid = not mentions_mut_imm(q)
+    return (valid, valid and not yields_mut(q))
+
 def run(tier, seed, cx):
     t0 = time.time()
     rng = random.Random(seed)
     queries = gen_queries(rng, 60 if tier == 'quick' else 600)
     rules = {m.group(1): m.group(2) == 'true' for m in re.finditer(r'Definition (g_\w+) : bool := (true|false)\.', open(cx['VERIF'] + '/coq/gen/GateRules.v').read())}
-    pred = coq_predictions(queries, cx)
+    try:
+        pred = coq_predictions(queries, cx)
+        pred_src = 'coq/Gates.v (vm_compute)'
+    except Exception as e:
+        # the rule model no longer builds (a theorem over the regenerated rules broke): search for
+        # a failing input with the property's own statement as oracle
+        pred = [spec_prediction(q) for q in queries]
+        pred_src = 'property statement (Gates.v does not build: %s)' % str(e)[:200]
     cases = query_cases(queries, pred) + fixed_cases(rules)
     permitted = [c for c in cases if c[2]]
     forbidden = [c for c in cases if not c[2]]
@@ -191,7 +215,7 @@ def run(tier, seed, cx):
                           all_such_cases=[x[0] for x in bad_perm][:40]), True))
     cov = dict(programs=len(cases), disagreements_checked=len(bad_perm) + len(bad_forb),
                evaluations=len(cases), distinct_nontrivial=len(set(b for _, b, _ in cases)),
-               rule='query expressions over {&A,&mut A,&B,&mut B,&Imm,&mut Imm}: all of depth <= 1 plus %d random of depth 2 (seed %d), each in 5 gated/ungated uses (iter, get, iter_mut, Iter::clone, for-loop over &Fetcher), plus %d fixed event/component/thread-safety programs; %d predicted to compile, %d predicted to be rejected; prediction by coq/Gates.v evaluated with vm_compute' % (len(queries) - 6 - 128, seed, len(fixed_cases(rules)), len(permitted), len(forbidden)),
+               rule='query expressions over {&A,&mut A,&B,&mut B,&Imm,&mut Imm}: all of depth <= 1 plus %d random of depth 2 (seed %d), each in 5 gated/ungated uses (iter, get, iter_mut, Iter::clone, for-loop over &Fetcher), plus %d fixed event/component/thread-safety programs; %d predicted to compile, %d predicted to be rejected; prediction by %s' % (len(queries) - 6 - 128, seed, len(fixed_cases(rules)), len(permitted), len(forbidden), pred_src),
                samples=[dict(case=c[0], program=c[1], predicted_to_compile=c[2]) for c in (cases[7:9] + cases[-3:])],
                permitted_programs=len(permitted), forbidden_programs=len(forbidden), c18_wall_s=round(time.time() - t0, 1))
     return viol, cov
